@@ -3,13 +3,36 @@
    [settled] returns the run in which the lines written are exactly the lines the board answered.
    The motor protocol and the one-byte variables range over finite domains, which are swept completely inside the kernel;
    the 32-bit split/join is proved for all values. *)
-From Plotink Require Import Base.Prelude Base.PyStr Model.Serial3 Spec.Board Proofs.BoardProofs.
+From Plotink Require Import Base.Prelude Base.PyStr Model.Serial3 Spec.Board Proofs.BoardProofs Proofs.BoardCompose.
 Open Scope Z_scope.
 
 (* every signed 32-bit value is split into four bytes 0..255 (big-endian) and joined back to itself *)
 Theorem C16_int32_split_join : forall v, -2147483648 <= v <= 2147483647 ->
   exists b, to_bytes4 v = Some b /\ from_bytes4 b = Some v /\ Forall (fun x => 0 <= x <= 255) b /\ length b = 4%nat.
 Proof. exact int32_roundtrip. Qed.
+
+(* the 4-byte writer and reader against the board, composed from byte exchanges: for EVERY board content (32 slots, any nickname and
+   motor state), every connected error-free client state, every signed 32-bit value and every start slot 0..28 the write run is
+   coherent (the lines written are the lines the board answered; whole script consumed), returns True, stores the four big-endian
+   bytes in slots i..i+3 and changes nothing else; the read run from the resulting board is coherent and returns the value *)
+Theorem C16_int32_round_trip : forall c s b v i, s_live s -> length (slots b) = 32%nat -> -2147483648 <= v <= 2147483647 -> 0 <= i <= 28 ->
+  exists bytes w b' w2,
+    to_bytes4 v = Some bytes /\ Forall (fun x => 0 <= x <= 255) bytes /\ length bytes = 4%nat /\
+    coherent c s (CVarWrite32 v i) b s (Ret (RBool true)) w b' /\
+    (forall j, nth j (slots b') 0 = if (Nat.leb (Z.to_nat i) j && Nat.ltb j (Z.to_nat i + 4))%bool then nth (j - Z.to_nat i) bytes 0 else nth j (slots b) 0) /\
+    length (slots b') = 32%nat /\ nick b' = nick b /\ en1 b' = en1 b /\ en2 b' = en2 b /\ mode b' = mode b /\
+    coherent c s (CVarRead32 i) b' s (Ret (RInt v)) w2 b'.
+Proof. exact int32_write_read. Qed.
+
+(* a nickname: for EVERY text (not containing the device's error marker), every board and every connected error-free client state,
+   write_nickname transmits ST,<trimmed text>, the board stores the trimmed text and nothing else changes; query_nickname on the
+   resulting board reads it back and the object's name is the trimmed text *)
+Theorem C16_nickname_round_trip : forall c s b n0, s_live s -> let n := strip n0 in
+  contains (T "QT," ++ n) (T "Err:") = false ->
+  exists b', coherent c s (CWriteNick (Some n0)) b (set_name s n) (Ret (RBool true)) [T "ST," ++ n] b' /\
+             nick b' = n /\ slots b' = slots b /\ en1 b' = en1 b /\ en2 b' = en2 b /\ mode b' = mode b /\
+             coherent c (set_name s n) CQueryNick b' (set_name s n) (Ret RNone) [T "QT"] b'.
+Proof. exact nickname_write_read. Qed.
 
 (* every byte value at every slot: written by var_write, stored by the board in that slot only, read back by var_read
    (256 x 32 cases, exhaustive); var_write_int32 / var_read_int32 are four such exchanges at consecutive slots by definition *)
@@ -29,6 +52,8 @@ Example C16_nickname : forallb nick_case_ok [Tt "Bot"; Tt "  Axi Draw "; Tt "x";
 Proof. exact nick_examples. Qed.
 
 Print Assumptions C16_int32_split_join.
+Print Assumptions C16_int32_round_trip.
+Print Assumptions C16_nickname_round_trip.
 Print Assumptions C16_byte_exchange.
 Print Assumptions C16_motors.
 Print Assumptions C16_motors_clamp.
